@@ -408,6 +408,8 @@ pub const REGEX_VOCAB: &[(&str, &str, &str)] = &[
     ("\\W", "a b", "ab"),
     ("[A-Z]", "aB", "ab"),
     (".a", "ba", "a"),
+    ("^[@-\\]]+$", "AB", "ab"),
+    ("[\\[-~]{2}", "ab", "AB"),
     (".ab", "cab", "ab"),
     ("a.", "ab", "a"),
 ];
